@@ -7,6 +7,7 @@ https://www.bundesbank.de/resource/blob/603320/16a80c739bbbae592ca575905975c2d0/
 
 from __future__ import annotations
 
+import threading
 from dataclasses import dataclass
 from itertools import cycle
 from typing import ClassVar
@@ -32,7 +33,7 @@ def digit_sum(number: int) -> int:
     return sum(int(d) for d in str(number))
 
 
-class WeightedModulus(checksum.Algorithm):
+class WeightedModulus(threading.local, checksum.Algorithm):
     accepts: ClassVar[list[Component]] = [Component.ACCOUNT_CODE]
     minuend: ClassVar[int | None] = None
     modulus: ClassVar[int]
